@@ -100,7 +100,7 @@ func genC19(r *Rng, tier string, o *Out) {
 	dastard.VerifStartClientDrain()
 	n := 1500
 	if tier == "thorough" {
-		n = 9000
+		n = 5000
 	}
 	for i := 0; i < n; i++ {
 		switch c := r.Intn(100); {
@@ -311,6 +311,9 @@ func c19Generic(r *Rng, o *Out, huge bool) {
 	if r.Chance(8) {
 		nchan = r.Pick(0, -1, -7)
 	}
+	if r.Chance(3) {
+		nchan = r.Pick(4096, 4097, 32768, 40000) // exercise the upper bits of the 16-bit fields
+	}
 	if huge {
 		nchan = r.Pick(65536, 65537, 65540)
 	}
@@ -328,6 +331,9 @@ func c19Generic(r *Rng, o *Out, huge bool) {
 
 func c19Roach(r *Rng, o *Out, huge bool) {
 	nchan := r.Pick(0, 1, 2, 8, 16, 100, 512, r.Range(1, 700))
+	if r.Chance(4) {
+		nchan = r.Pick(4096, 4097, 32768, 40000, 65535)
+	}
 	if huge {
 		nchan = r.Pick(65536, 65537, 65540)
 	}
